@@ -31,8 +31,18 @@ def tlc_scenarios(out):
 
 def explore(c, cfgname, timeout=3000):
     """Exhaustive run of one RouterStepMC.<cfgname>.cfg; returns (cfg, scenarios)."""
+    # development aid for the mutation self-tests (never set by registered commands): reuse the
+    # scenario output of an earlier exhaustive run instead of repeating it for every mutant
+    cache = os.environ.get("VERIF_DPADV_CACHE")
+    cf = os.path.join(cache, cfgname + ".json") if cache else None
+    if cf and os.path.exists(cf):
+        cfg, scn = json.load(open(cf))
+        c.notes.append("%s: scenarios taken from VERIF_DPADV_CACHE (development run)" % cfgname)
+        return cfg, scn
     r = c.mc("RouterStep", "RouterStepMC.%s.cfg" % cfgname, timeout=timeout)
     cfg, scn = tlc_scenarios(r.out)
+    if cf and cfg is not None:
+        json.dump([cfg, scn], open(cf, "w"))
     if cfg is None:
         raise vlib.Infra("RouterStep %s printed no CFG line" % cfgname)
     return cfg, scn
@@ -220,7 +230,7 @@ def _round_robin(groups, rnd, room, prefer):
 
 
 def pipeline(c, pid, explores, asfounds=(), prefer=(), budget=12000, rand=None, flags=(), extra=(),
-             nontrivial=None):
+             nontrivial=None, keep=None):
     """explores: [(cfgname, auth)]; asfounds: [(cfgname, [invariants expected to fail])];
     rand: dict for a {"rand": ...} line appended to every block; extra: [(cfg, auth, lines)]."""
     import time
@@ -231,21 +241,25 @@ def pipeline(c, pid, explores, asfounds=(), prefer=(), budget=12000, rand=None, 
     if c.replay:
         replay(c, pid)
         return None
-    blocks, total = [], 0
+    blocks, total, cache = [], 0, {}
     per = max(1, budget // max(1, len(explores)))
     for (name, auth) in explores:
-        t1 = time.time()
-        cfg, scn = explore(c, name)
-        tm["mc:" + name] = round(time.time() - t1, 1)
-        total += len(scn)
-        sel = select([(name, s) for s in scn], c.seed, per, prefer)
+        if name not in cache:
+            t1 = time.time()
+            cache[name] = explore(c, name)
+            tm["mc:" + name] = round(time.time() - t1, 1)
+            total += len(cache[name][1])
+        cfg, scn = cache[name]
+        sel = select([(name, s) for s in scn if keep is None or keep(s)], c.seed + (7 if auth else 0), per, prefer)
         lines = [{"p": s["p"]} for (_, s) in sel]
-        if rand:
-            lines.append(rand)
+        for ln in ([rand] if isinstance(rand, dict) else list(rand or [])):
+            lines.append(ln)
         blocks.append((cfg, auth, lines))
-        c.notes.append("%s: TLC emitted %d assemblies (passed + single-check near misses), %d executed"
-                       % (name, len(scn), len(sel)))
+        c.notes.append("%s%s: TLC emitted %d assemblies (passed + single-check near misses), %d executed"
+                       % (name, " (SCMP authentication on)" if auth else "", len(scn), len(sel)))
     for (name, expect) in asfounds:
+        if os.environ.get("VERIF_DPADV_CACHE"):
+            continue
         t1 = time.time()
         asfound(c, name, expect)
         tm["asfound:" + name] = round(time.time() - t1, 1)
